@@ -17,6 +17,7 @@ type loopInfo struct {
 	blocks   map[int]bool
 	parent   *loopInfo
 	children []*loopInfo
+	ord      int // ordinal of the loop in its function (by reverse post-order of the header): a name that does not move with line numbers
 }
 type fnInfo struct {
 	rpoIdx  map[int]int
@@ -127,6 +128,11 @@ func (w *W) info(fn *ssa.Function) *fnInfo {
 	fi.topItems = mk(nil)
 	for _, l := range fi.loops {
 		fi.items[l] = mk(l)
+	}
+	byHdr := append([]*loopInfo(nil), fi.loops...)
+	sort.Slice(byHdr, func(i, j int) bool { return fi.rpoIdx[byHdr[i].header.Index] < fi.rpoIdx[byHdr[j].header.Index] })
+	for i, l := range byHdr {
+		l.ord = i
 	}
 	w.fninfo[fn] = fi
 	return fi
@@ -343,14 +349,25 @@ func (w *W) walkItems(f *frame, fi *fnInfo, items []regionItem) {
 }
 
 func (w *W) unwind(f *frame, l *loopInfo) int {
-	name := fmt.Sprintf("%s@%s", f.fn.String(), w.pos(loopPos(l)))
+	name := w.loopName(f, l)
 	for k, v := range w.unwindOverride {
 		if strings.Contains(name, k) {
+			unwindHit[k] = true
 			return v
 		}
 	}
 	return w.U
 }
+
+// loopName: <function>#<ordinal>@<file:line>; overrides match on any substring, the registered ones use
+// "<function suffix>#<ordinal>" so that they survive edits that shift line numbers
+func (w *W) loopName(f *frame, l *loopInfo) string {
+	return fmt.Sprintf("%s#%d@%s", f.fn.String(), l.ord, w.pos(loopPos(l)))
+}
+
+// unwindHit: the overrides that matched a loop (an override that matches nothing is reported: the bound it was
+// meant to set is then the default)
+var unwindHit = map[string]bool{}
 
 func loopPos(l *loopInfo) token.Pos {
 	for _, ins := range l.header.Instrs {
@@ -368,7 +385,7 @@ func (w *W) walkLoop(f *frame, fi *fnInfo, l *loopInfo) {
 	saved := f.iter
 	U := w.unwind(f, l)
 	h := l.header.Index
-	name := fmt.Sprintf("%s@%s", f.fn.String(), w.pos(loopPos(l)))
+	name := w.loopName(f, l)
 	for k := 0; ; k++ {
 		g := False
 		for _, e := range f.in[h] {
